@@ -104,6 +104,16 @@ func (c19) Run(c *Ctx, i int) CaseResult {
 			return res
 		}
 	}
+	if i%3 == 0 {
+		// request middlewares on real *http.Request values: a gateway in its default configuration (the client library's
+		// network queryers over an in-process transport), every request that arrives carries every middleware's mark
+		tc := NetTwinCase{Query: c05Queries[r.Intn(len(c05Queries))], StoreSeed: 5, ListLen: []int{0, 3, 12}[r.Intn(3)], ReqMws: r.Intn(4), Cached: r.Intn(2) == 0, Repeat: 1 + r.Intn(2)}
+		if nf := RunNetTwin(tc); len(nf) > 0 {
+			res.Nontrivial = true
+			res.Fails = nf
+			return res
+		}
+	}
 	log := &mwLog{}
 	// registration order interleaves both kinds (the split must keep each kind's order)
 	var mws []gateway.Middleware
